@@ -19,6 +19,14 @@
 (* (<= MaxGen generations) -- a side may update only after the peer has     *)
 (* answered in its current phase (RFC 9001 6.1), the peer follows on its    *)
 (* next packet.                                                             *)
+(* Noise (NoisePhases # {}): a short-header datagram on the connection's own  *)
+(* 4-tuple that no key opens (damaged in transit, forged, a stateless       *)
+(* reset).  check_key_epoch runs BEFORE the AEAD check, so such a packet    *)
+(* whose unmasked key-phase bit differs from the last one seen advances the *)
+(* direction's epoch although nothing was authenticated (RFC 9001 6.3 says  *)
+(* discard and do not update): the rest of that direction stays dark.       *)
+(* Documented deviation, outside what C02 claims; "same"-phase noise is     *)
+(* harmless and must stay so.                                               *)
 (* Named deviation: KF_EarlySuiteGuess (0-RTT packet arrives before the     *)
 (* ServerHello while the first offered suite differs from the negotiated).  *)
 (***************************************************************************)
@@ -28,7 +36,8 @@ CONSTANTS AllowLate, AllowLateAcrossKu,   \* network reordering of application d
           SuiteSet,        \* negotiated suites to explore, e.g. {"1301","1303"}
           OfferFirst,      \* what the ClientHello lists first: {"same","other","grease"}
           Splits,          \* ClientHello CRYPTO splits: set of sequences (orders of piece indices), e.g. {<<1>>,<<2,1>>}
-          MaxApp, MaxGen, AllowEarlyGuess, Retries, ZeroRtts, EmitOn
+          MaxApp, MaxGen, AllowEarlyGuess, Retries, ZeroRtts, EmitOn,
+          NoisePhases      \* subset of {"same","flip"}: unmasked key-phase bit of an undecryptable short-header datagram relative to the sender's
 
 Dir == {"c", "s"}
 Other(d) == IF d = "c" THEN "s" ELSE "c"
@@ -101,13 +110,13 @@ HandlePkt(s, p, dg) ==
   ELSE IF p.t = "I" THEN (IF s.initFrom = SndInit THEN Frames(s, p, 1, dg) ELSE s)
   ELSE IF p.t = "H" THEN (IF s.tlsKeys # "none" /\ Class(s.tlsKeys) = Class(suite) THEN Frames(s, p, 1, dg) ELSE s)
   ELSE IF p.t = "Z" THEN (IF s.earlyKeys # "none" /\ Class(s.earlyKeys) = Class(suite) THEN Frames(s, p, 1, dg) ELSE s)
-  ELSE \* 1-RTT: check_key_epoch, then decrypt with the generation of that direction
+  ELSE \* 1-RTT (and "N": noise with a short header): check_key_epoch, then decrypt with the generation of that direction
     IF s.tlsKeys = "none" THEN s
     ELSE LET ph == p.gen % 2
              e1 == IF s.lastPhase[p.d] # ph THEN s.epoch[p.d] + 1 ELSE s.epoch[p.d]
              s1 == [s EXCEPT !.epoch[p.d] = e1, !.lastPhase[p.d] = ph,
                              !.gens = IF e1 >= @ THEN e1 + 1 ELSE @]
-         IN IF Class(s.tlsKeys) = Class(suite) /\ e1 = p.gen THEN Frames(s1, p, 1, dg) ELSE s1
+         IN IF p.t # "N" /\ Class(s.tlsKeys) = Class(suite) /\ e1 = p.gen THEN Frames(s1, p, 1, dg) ELSE s1
 
 RECURSIVE HandleDg(_, _, _, _)
 HandleDg(s, pkts, i, dg) ==
@@ -228,6 +237,14 @@ ReleaseHeld ==
   /\ held' = <<>>
   /\ UNCHANGED <<world, pc, chSent, retried, sgen, nApp, nextId, sn, kfTaken>>
 
+\* an undecryptable short-header datagram of direction d (consumes one unit of the application budget)
+NoiseDatagram ==
+  /\ NoisePhases # {} /\ pc = 6 /\ nApp < MaxApp
+  /\ \E d \in Dir, ph \in NoisePhases :
+       Send(d, <<P("N", d, IF ph = "same" THEN sgen[d] ELSE sgen[d] + 1, <<F("noise", ph, 0)>>)>>)
+  /\ nApp' = nApp + 1
+  /\ UNCHANGED <<world, pc, chSent, retried, sgen, acked, nextId, kfTaken, held>>
+
 \* key update: initiate (own gen = peer's gen, peer has acknowledged this generation) or follow (peer is ahead)
 KeyUpdate ==
   /\ pc = 6 /\ nApp < MaxApp
@@ -240,6 +257,7 @@ KeyUpdate ==
   /\ UNCHANGED <<world, pc, chSent, retried, acked, nApp, nextId, dgId, expect, implv, kfTaken, hist, held, sn>>
 
 Next == ClientHelloStep \/ RetryStep \/ ServerFlight \/ ClientFinish \/ ServerDone \/ AppDatagram \/ KeyUpdate \/ HoldDatagram \/ ReleaseHeld
+        \/ NoiseDatagram
 
 Init == /\ suite \in SuiteSet /\ first \in OfferFirst /\ split \in Splits /\ twoPkts \in BOOLEAN
         /\ retry \in Retries /\ zrtt \in ZeroRtts /\ coalesce \in BOOLEAN /\ cfApp \in BOOLEAN /\ sfApp \in BOOLEAN
@@ -267,6 +285,9 @@ Done == pc = 6 /\ nApp = MaxApp /\ held = <<>>
 DgramsEqualStreamData == Output = expect
 \* a prefix at every moment (C08)
 OutputIsPrefix == IsPrefix(Output, expect)
+\* ... per direction (what remains true when noise makes one direction go dark)
+OfDir(seq, d) == SelectSeq(seq, LAMBDA x : x.d = d)
+PerDirPrefix == \A d \in Dir : IsPrefix(OfDir(Output, d), OfDir(expect, d))
 \* CRYPTO reassembly: contiguous offset never exceeds what was sent, complete once all pieces arrived
 CryptoOk == off <= NPieces /\ (pc >= 3 => off = NPieces /\ frags = {} /\ haveCR)
 \* key generations: each direction's epoch equals the sender's generation once a packet of it was seen
